@@ -302,6 +302,21 @@ NoRedrawIsVariant ==
      /\ MEqU(fc.S, MAdd(MMul(MMul(fc.H, pred.prop), MT(fc.H)), fc.R))
      /\ MEqU(fc.P, MAdd(QM(sys.Qm), MMul(ImKH, pred.prop)))
 
+\* a change of units (state and measurements scaled by c: covariances by c^2) changes nothing but the units: the
+\* innovation covariance and the posterior scale by c^2, the gain does not change.  The harness replays every
+\* behaviour in units scaled by 2^-17, 2^-10, 2^10 on the strength of this (an implementation that looks at the
+\* ABSOLUTE size of a covariance entry breaks it).
+MScal(A, k) == IF ~MOk(A) \/ ~MulFits(MaxAbs(A.n), k) THEN Bad
+               ELSE Mk(IMat(Rows(A), Cols(A), LAMBDA i, j : k * A.n[i][j]), A.d)
+UnitChangeEquivariant ==
+  HasFc => \A c2 \in {4, 9} :
+     LET Cc == MScal(fc.C, c2)
+         Sc == MAdd(MMul(fc.H, Cc), MScal(fc.R, c2))
+         Kc == MMul(Cc, MInv(Sc))
+     IN /\ MEqU(Sc, MScal(fc.S, c2))
+        /\ MEqU(Kc, fc.K)
+        /\ MEqU(MSub(MScal(pred.P, c2), MMul(MMul(Kc, Sc), MT(Kc))), MScal(fc.P, c2))
+
 \* every number kept in a live state is exact and below 10^9
 NoOverflow ==
   pc # "overflow" =>
